@@ -17,7 +17,8 @@ CLAIMED = {
                  'source; the executable model of reduce() (the same functions the theorems speak about) is compared '
                  'with the real reduce() on seeded well-typed expressions and the dense-matrix oracle is evaluated on '
                  'the implementation.'
-                 ' CLOSED: in the faithful list denotation (operators as maps on flat real vectors assembled from the executable kernels the driver runs) all leaf laws are theorems, so reduce_sound_closed has no semantic hypothesis left.'),
+                 ' CLOSED: in the faithful list denotation (operators as maps on flat real vectors assembled from the executable kernels the driver runs) all leaf laws are theorems, so reduce_sound_closed has no semantic hypothesis left.'
+                 ' DOMAIN CHECK: Valid.validb (FuraxModel/Valid.lean, compiled into the driver) decides the hypothesis of reduce_sound_closed — validb_iff: WTExpr inv listLeafOK o <-> validb o = true and the operands of lazy inverses satisfy inv (sound and complete) — and every expression the library builds in a run is asked to be inside it (Ctx.in_domain), so the closed theorem is about the real objects, not only about terms of the model.'),
         'note': ('Trusted: Lean kernel + propext/Classical.choice/Quot.sound; harness encoder/translator; JAX '
                  'primitives (A1, A2), exact lazy inverse (A4, part of WTExpr: A.invertible).  The leaf laws of '
                  'RuleLaws/ContainerLaws are hypotheses of the abstract reduce_sound and THEOREMS in the list denotation '
@@ -253,7 +254,8 @@ CLAIMED = {
                  'rewriting, move-axis permutation inverse, Toeplitz self-adjointness, block row/column/diagonal.  The form of '
                  '.T is compared with the implementation on random expressions and per-class operators; dense(A.T) = dense(A)ᵀ, '
                  '<Ax,y> = <x,A.T y>, swapped structures and A.T.T are checked on the implementation.'
-                 ' CLOSED: transpose_is_adjoint_closed — <Ax,y> = <x,A.T y> in the list denotation for every valid expression incl. lazy inverses and block containers, A.T being the form transposeOp builds.'),
+                 ' CLOSED: transpose_is_adjoint_closed — <Ax,y> = <x,A.T y> in the list denotation for every valid expression incl. lazy inverses and block containers, A.T being the form transposeOp builds.'
+                 ' DOMAIN CHECK: Valid.validTb decides the hypotheses of transpose_is_adjoint_closed (validTb_iff) on every real operator of a run; complex operators (transpose is not conjugation), observation matrices and the deterministic Toeplitz grid are part of the streams.'),
         'note': ('Trusted: Lean kernel + Mathlib + standard axioms; A2 (jax.linear_transpose is the exact adjoint) for the '
                  'generic TransposeOperator — it enters as part of the hypothesis LeafAdjoint and is re-checked by the '
                  'dense-matrix oracle. Transposes of the solver-based inverse are excluded, as the property says.'),
